@@ -481,8 +481,10 @@ def run(tier, seed):
     run = Run("C16", tier, seed, "exploration", floor=300)
     run.rule = ("every substance of the database x every property: by-name lookup with dimensionless multiples (k S, S*k, S/k), "
                 "output of an amount given in the input's dimensionality (as a product of base units), the inverse query, an "
-                "amount of another dimensionality (must be a conformance error), scaled substance replies; chemical formulas "
-                "over the element symbols with counts up to 2^32-1 and near-miss strings; non-trivial = distinct (substance, "
+                "amount of another dimensionality, of the asked side's own dimensionality or a plain number (must be a conformance "
+                "error), zero amounts, scaled substance replies, the plain reply to `<amount> substance` and `substance -> k unit` "
+                "conversions read back as printed; chemical formulas "
+                "over the element symbols with counts up to 2^32-1 and near-miss strings (unknown symbols, lower case, counts of zero, leading zeros, 2^32); non-trivial = distinct (substance, "
                 "property, direction) and distinct formula/near-miss names judged")
     run.assumptions = ["a property is unambiguous iff its input and output names each occur once among all names of its substance",
                        "a substance is queried only under a name rink resolves to it; names that are units by C07's rule are skipped",
